@@ -215,3 +215,132 @@ def _finish_text(rep, R, res, texts):
     rep.check(not bad_panic, R, 'no-panic', 'no panic site reached', 'threshold %s: %r: %s' % (bad_panic[0] if bad_panic else (0, '', '')))
     rep.floor(R, len(res), 8000, 'texts rewritten')
     rep.info(R, 'inventory', '%d texts' % len(texts))
+
+
+# ---------------------------------------------------------------------------------------------------------
+class _Match:
+    def __init__(self, s, e, v):
+        self.s, self.e, self.v = s, e, v
+
+
+class _Engine:
+    def __init__(self, patterns):
+        self.patterns = patterns
+
+
+class SplitEnv:
+    """daachorse behind WordSplitter: leftmost-longest, non-overlapping matches (byte offsets)."""
+
+    def call(self, vm, name, callee, resolved, args, t):
+        from ..armtable import Splitter
+        from ..vm import Iter, Enum
+        d = vm.deref
+        a0 = d(args[0]) if args else None
+        last = name.split('::')[-1]
+        if name.endswith('Builder::new') and 'DoubleArrayAhoCorasick' in (callee or ''):
+            return _Engine(None)
+        if isinstance(a0, _Engine):
+            if last == 'match_kind':
+                return a0
+            if last == 'build':
+                pats = d(args[1])
+                items = pats.rest() if isinstance(pats, Iter) else list(pats.items)
+                pats = [vm.as_text(x) for x in items]
+                if not all(pats) or len(set(pats)) != len(pats):
+                    return Enum('core::result::Result', 'Err', ['DaachorseError'])
+                return Enum('core::result::Result', 'Ok', [_Engine(pats)])
+            if last == 'leftmost_find_iter':
+                word = vm.as_text(args[1])
+                out = []
+                for (cs, ce) in Splitter(a0.patterns).matches(word):
+                    out.append(_Match(len(word[:cs].encode('utf-8')), len(word[:ce].encode('utf-8')), a0.patterns.index(word[cs:ce])))
+                return Iter(out)
+        if isinstance(a0, _Match) and last in ('start', 'end', 'value'):
+            return {'start': a0.s, 'end': a0.e, 'value': a0.v}[last]
+        return NotImplemented
+
+
+SPLIT_PATTERNS = ['ab', 'abc', 'é', 'zz']
+SPLIT_CHARS = ['a', 'b', 'c', 'é', 'z', 'x']
+
+
+def _split_work(chunk):
+    from ..vm import Ref
+    out = []
+    vm = VM(_FACTS, SplitEnv())
+    try:
+        ws = vm.run('tokenizer::WordSplitter::new', [Seq(list(SPLIT_PATTERNS))])
+        ws = vm.deref(ws.payload[0])
+        vm.heap['ws'] = ws
+    except (Unsupported, Panic) as e:
+        return [(w, None, None, 'unsupported: %s' % e) for w in chunk]
+    for w in chunk:
+        try:
+            it = vm.run('tokenizer::WordSplitter::split', [Ref('heap', 'ws'), w])
+            pieces = vm.materialise(vm.deref(it))
+            sp = vm.run('tokenizer::WordSplitter::is_splittable', [Ref('heap', 'ws'), w])
+            out.append((w, [vm.deref(p) for p in pieces], bool(sp), None))
+        except Panic as e:
+            out.append((w, None, None, 'panic: %s' % e))
+        except Unsupported as e:
+            out.append((w, None, None, 'unsupported: %s' % e))
+    return out
+
+
+def split_all(ctx, depth):
+    def mk():
+        global _FACTS
+        _FACTS = ctx.facts
+        words = [''.join(p) for n in range(0, depth + 1) for p in itertools.product(SPLIT_CHARS, repeat=n)]
+        import multiprocessing
+        import os
+        jobs = min(os.cpu_count() or 1, 16)
+        size = max(200, len(words) // (jobs * 2))
+        chunks = [words[i:i + size] for i in range(0, len(words), size)]
+        res = []
+        if jobs < 2 or os.environ.get('T2N_NO_FORK'):
+            for c in chunks:
+                res.extend(_split_work(c))
+        else:
+            with multiprocessing.get_context('fork').Pool(jobs) as pool:
+                for part in pool.imap_unordered(_split_work, chunks):
+                    res.extend(part)
+        return res
+    return getattr(ctx, 'memo_disk', ctx.memo)(('split-all', depth), mk)
+
+
+def rule_word_splitter(ctx, rep):
+    R = 'V-SPLIT'
+    rep.rule(R, 'WordSplitter::split / is_splittable interpreted (the automaton behind them modelled as leftmost-longest matching) on every word '
+                'up to length 5 over an alphabet with overlapping and multi-byte patterns: the pieces concatenate to the word, none is empty, they '
+                'are exactly the leftmost-longest pattern matches and the text between them; is_splittable is true iff there is a match that is '
+                'not the whole word; no slice leaves a char boundary — this is also what validates the splitter model used by the lexical rules')
+    from ..armtable import Splitter
+    d = depth_for(ctx, 5, 6)
+    res = split_all(ctx, d)
+    model = Splitter(SPLIT_PATTERNS)
+    bad = {}
+    n = 0
+    for w, pieces, splittable, err in res:
+        n += 1
+        if err:
+            if err.startswith('unsupported'):
+                rep.anchor(R, 'machine', 'cannot interpret the word splitter on %r: %s' % (w, err))
+                return
+            bad.setdefault('no-panic', (w, err))
+            continue
+        if ''.join(pieces) != w:
+            bad.setdefault('lossless', (w, pieces))
+        if any(not p for p in pieces):
+            bad.setdefault('non-empty', (w, pieces))
+        if pieces != model.split(w):
+            bad.setdefault('leftmost-longest', (w, '%s, expected %s' % (pieces, model.split(w))))
+        if splittable != model.is_splittable(w):
+            bad.setdefault('is-splittable', (w, '%s, expected %s' % (splittable, model.is_splittable(w))))
+    for k, msg in (('no-panic', 'no panic site reached'), ('lossless', 'pieces concatenate to the word'), ('non-empty', 'no empty piece'),
+                   ('leftmost-longest', 'pieces = leftmost-longest matches and the text between them'), ('is-splittable', 'is_splittable = a match that is not the whole word')):
+        if k in bad:
+            rep.violation(R, k, '%s fails on %r: %s' % (msg, bad[k][0], bad[k][1]))
+        else:
+            rep.ok(R, k, '%s (%d words)' % (msg, n))
+    rep.floor(R, n, 9000, 'words split')
